@@ -1,10 +1,12 @@
 (* Proofs/ReaderProofs.v -- readers observe only whole committed snapshots (C02). *)
 From Coq Require Import ZArith List Bool Arith Lia.
 Require Import DS.Model.Commit DS.Model.Fault DS.Model.Reader DS.Proofs.CommitProofs DS.Proofs.FaultProofs.
+Require Import DS.Gen.GenReadRes DS.Proofs.ReadResProofs.
 Import ListNotations.
 
 Definition hist (z : rworld) := w_hist (fw (rx z)).
 
+(* the invariant of a world whose read calls resolve the pointer ONCE (budget 1) *)
 Record RInv (c : cfg) (z : rworld) : Prop := {
   RI_f : FInv c (rx z);
   RI_r : forall r,
@@ -12,10 +14,11 @@ Record RInv (c : cfg) (z : rworld) : Prop := {
     (forall st, r_start s = Some st -> (st <= length (hist z))%nat)
     /\ (forall v, r_vid s = Some v ->
           exists i st, r_idx s = Some i /\ r_start s = Some st /\ (st <= i <= length (hist z))%nat
-                       /\ v = version_at (hist z) i /\ In v (committed (fw (rx z))))
-    /\ (r_vid s = None -> r_idx s = None)
+                       /\ v = version_at (hist z) i /\ In v (committed (fw (rx z)))
+                       /\ r_got s ++ r_todo s = refs (rx z) v /\ (1 <= r_nres s)%nat)
+    /\ (r_vid s = None -> r_idx s = None /\ r_got s = [])
     /\ r_ok s = true
-    /\ (forall e, r_end s = Some e -> exists i, r_idx s = Some i /\ (i <= e <= length (hist z))%nat) }.
+    /\ (forall e, r_end s = Some e -> exists i, r_idx s = Some i /\ (i <= e <= length (hist z))%nat /\ r_todo s = []) }.
 
 Lemma hist_grows c x fe x' : fstep c x fe = Some x' -> exists t, w_hist (fw x') = w_hist (fw x) ++ t.
 Proof.
@@ -45,9 +48,16 @@ Proof.
   - intro H. exists f. split; [exact H | apply Nat.eqb_refl].
 Qed.
 
-Lemma rstep_inv c z e z' : sound c -> RInv c z -> rstep c z e = Some z' -> RInv c z'.
+(* the files a committed version references never change *)
+Lemma refs_stable c x fe x' v : FInv c x -> fstep c x fe = Some x' -> In v (committed (fw x)) -> refs x' v = refs x v.
 Proof.
-  intros Snd I H. destruct e as [fe|r|r|r f|r]; simpl in H.
+  intros I St Hv. apply (fstep_refs_stable c x fe x' v I St).
+  rewrite (FI_len c x I). eapply committed_valid; [apply I | exact Hv].
+Qed.
+
+Lemma rstep_inv c z e z' : sound c -> RInv c z -> rstep c 1 z e = Some z' -> RInv c z'.
+Proof.
+  intros Snd I H. destruct e as [fe|r|r|r|r]; simpl in H.
   - (* writer-side event *)
     destruct (fstep c (rx z) fe) as [x'|] eqn:St; [|discriminate]. inversion H; subst z'; clear H.
     destruct (hist_grows c _ _ _ St) as [t Ht].
@@ -55,45 +65,59 @@ Proof.
     intro r. destruct (RI_r c z I r) as [A [B [C [D E]]]]. unfold hist in *. simpl. rewrite Ht.
     repeat split; auto.
     + intros st Hs. specialize (A st Hs). rewrite app_length. lia.
-    + intros v Hv. destruct (B v Hv) as [i [st [B1 [B2 [B3 [B4 B5]]]]]]. exists i, st.
+    + intros v Hv. destruct (B v Hv) as [i [st [B1 [B2 [B3 [B4 [B5 [B6 B7]]]]]]]]. exists i, st.
       repeat split; auto; try lia.
       * rewrite app_length. lia.
       * rewrite version_at_stable by lia. exact B4.
       * apply (committed_grows _ t v B5).
-    + intros e0 He. destruct (E e0 He) as [i [E1 E2]]. exists i. split; auto. rewrite app_length. lia.
+      * rewrite (refs_stable c _ _ _ v (RI_f c z I) St B5). exact B6.
+    + apply C; assumption.
+    + apply C; assumption.
+    + intros e0 He. destruct (E e0 He) as [i [E1 [E2 E3]]]. exists i. split; auto. split; auto. rewrite app_length. lia.
   - (* RStart *)
     destruct (r_start (r_readers z r)) eqn:S0; [discriminate|]. inversion H; subst z'; clear H.
     constructor; simpl; [apply I|]. intro q. unfold updr. destruct (Nat.eqb_spec q r) as [->|NE]; [|apply (RI_r c z I q)].
-    simpl. unfold hist. simpl. repeat split; auto; try discriminate.
+    simpl. unfold hist, nflips. simpl. repeat split; auto; try discriminate.
     intros st E. inversion E. lia.
   - (* RPtr *)
     destruct (r_start (r_readers z r)) as [st|] eqn:S0; [|discriminate].
-    destruct (r_vid (r_readers z r)) eqn:V0; [discriminate|]. inversion H; subst z'; clear H.
-    destruct (RI_r c z I r) as [A [B [C [D E]]]].
+    destruct (r_end (r_readers z r)) eqn:E0; [discriminate|].
+    destruct (Nat.ltb (r_nres (r_readers z r)) 1) eqn:Bud; [|discriminate]. inversion H; subst z'; clear H.
+    apply Nat.ltb_lt in Bud.
+    pose proof (RI_r c z I r) as R. cbv zeta in R. destruct R as [A [B [C [D E]]]].
+    assert (V0 : r_vid (r_readers z r) = None).
+    { destruct (r_vid (r_readers z r)) as [v|] eqn:V; [|reflexivity].
+      destruct (B v eq_refl) as [_ [_ [_ [_ [_ [_ [_ [_ N]]]]]]]]. lia. }
+    destruct (C V0) as [_ G0].
     constructor; simpl; [apply I|]. intro q. unfold updr. destruct (Nat.eqb_spec q r) as [->|NE]; [|apply (RI_r c z I q)].
-    simpl. unfold hist in *. simpl. repeat split; auto; try discriminate.
-    + intros st0 E0. inversion E0; subst st0. apply (A st S0).
+    simpl. unfold hist, nflips in *. simpl. repeat split; auto; try discriminate.
+    + intros st0 E1. inversion E1; subst st0. apply (A st S0).
     + intros v Hv. inversion Hv; subst v. exists (length (w_hist (fw (rx z)))), st. specialize (A st S0).
       repeat split; auto; try lia.
       * rewrite version_at_full. apply (I_ptr c _ (FI_inv c _ (RI_f c z I))).
       * apply (ptr_committed c _ (FI_inv c _ (RI_f c z I))).
+      * rewrite G0. reflexivity.
   - (* RFile *)
     destruct (r_vid (r_readers z r)) as [v|] eqn:V0; [|discriminate].
     destruct (r_end (r_readers z r)) eqn:E0; [discriminate|].
-    destruct (existsb (Nat.eqb f) (refs (rx z) v)) eqn:InR; [|discriminate]. inversion H; subst z'; clear H.
-    pose proof (RI_r c z I r) as R. cbv zeta in R. rewrite V0, E0 in R. destruct R as [A [B [C [D E]]]].
+    destruct (r_todo (r_readers z r)) as [|f tl] eqn:T0; [discriminate|]. inversion H; subst z'; clear H.
+    pose proof (RI_r c z I r) as R. cbv zeta in R. rewrite V0, E0, T0 in R. destruct R as [A [B [C [D E]]]].
+    destruct (B v eq_refl) as [i [st [B1 [B2 [B3 [B4 [B5 [B6 B7]]]]]]]].
+    assert (Pf : existsb (Nat.eqb f) (f_present (rx z)) = true).
+    { apply existsb_eqb_in. apply (finv_present c _ (RI_f c z I) v B5). rewrite <- B6. apply in_or_app. right. left. reflexivity. }
     constructor; simpl; [apply I|]. intro q. cbv zeta. unfold updr. destruct (Nat.eqb_spec q r) as [->|NE]; [|apply (RI_r c z I q)].
-    simpl. unfold hist in *. simpl. split; [exact A|]. split; [exact B|]. split; [discriminate|]. split; [|discriminate].
-    rewrite D. simpl. apply existsb_eqb_in.
-    destruct (B v eq_refl) as [i [st [_ [_ [_ [_ Cv]]]]]].
-    apply (finv_present c _ (RI_f c z I) v Cv). apply existsb_eqb_in. exact InR.
+    simpl. unfold hist in *. simpl. rewrite Pf. split; [exact A|]. split.
+    { intros v' Hv'. inversion Hv'; subst v'. exists i, st. repeat split; auto; try lia.
+      rewrite <- app_assoc. simpl. exact B6. }
+    split; [discriminate|]. split; [rewrite D; reflexivity | discriminate].
   - (* REnd *)
     destruct (r_vid (r_readers z r)) as [v|] eqn:V0; [|discriminate].
-    destruct (r_end (r_readers z r)) eqn:E0; [discriminate|]. inversion H; subst z'; clear H.
-    pose proof (RI_r c z I r) as R. cbv zeta in R. rewrite V0, E0 in R. destruct R as [A [B [C [D E]]]].
+    destruct (r_end (r_readers z r)) eqn:E0; [discriminate|].
+    destruct (r_todo (r_readers z r)) as [|f tl] eqn:T0; [|discriminate]. inversion H; subst z'; clear H.
+    pose proof (RI_r c z I r) as R. cbv zeta in R. rewrite V0, E0, T0 in R. destruct R as [A [B [C [D E]]]].
     constructor; simpl; [apply I|]. intro q. cbv zeta. unfold updr. destruct (Nat.eqb_spec q r) as [->|NE]; [|apply (RI_r c z I q)].
-    simpl. unfold hist in *. simpl. split; [exact A|]. split; [exact B|]. split; [discriminate|]. split; [exact D|].
-    intros e0 He. inversion He; subst e0. destruct (B v eq_refl) as [i [st [B1 [_ [B3 _]]]]]. exists i. split; auto. lia.
+    simpl. unfold hist, nflips in *. simpl. split; [exact A|]. split; [exact B|]. split; [discriminate|]. split; [exact D|].
+    intros e0 He. inversion He; subst e0. destruct (B v eq_refl) as [i [st [B1 [_ [B3 _]]]]]. exists i. split; auto. split; [lia | reflexivity].
 Qed.
 
 Lemma rinit_inv c x : FInv c x -> RInv c (rinit x).
@@ -101,43 +125,166 @@ Proof.
   intro I. constructor; simpl; auto. intro r. simpl. repeat split; auto; discriminate.
 Qed.
 
-Lemma rrun_inv c z evs : sound c -> RInv c z -> RInv c (rrun c z evs).
+Lemma rrun_inv c z evs : sound c -> RInv c z -> RInv c (rrun c 1 z evs).
 Proof.
   intro Snd. revert z. induction evs as [|e l IH]; intros z I; [exact I|].
-  change (RInv c (rrun c (rstep_skip c z e) l)). apply IH. unfold rstep_skip.
-  destruct (rstep c z e) eqn:St; [eapply rstep_inv; eauto | exact I].
+  change (RInv c (rrun c 1 (rstep_skip c 1 z e) l)). apply IH. unfold rstep_skip.
+  destruct (rstep c 1 z e) eqn:St; [eapply rstep_inv; eauto | exact I].
 Qed.
 
+(* A read call that has returned: it resolved the pointer at an instant i between its start and its end, no file read
+   failed, and the files it read are EXACTLY the files of the version current after i flips -- so, whatever the
+   (immutable) contents of the files, the rows it hands out are the rows of that one snapshot. *)
 Theorem reader_snapshot c m0 kind mr r0 next evs :
   sound c -> (forall f, In f r0 -> (f < next)%nat) ->
-  let z := rrun c (rinit (finit m0 kind mr r0 next)) evs in
-  forall r v, r_vid (r_readers z r) = Some v ->
+  let z := rrun c 1 (rinit (finit m0 kind mr r0 next)) evs in
+  forall r e, r_end (r_readers z r) = Some e ->
     exists i st, r_idx (r_readers z r) = Some i /\ r_start (r_readers z r) = Some st
-      /\ (st <= i <= length (hist z))%nat /\ v = version_at (hist z) i
+      /\ (st <= i <= e)%nat /\ (e <= length (hist z))%nat
       /\ r_ok (r_readers z r) = true
-      /\ (forall e, r_end (r_readers z r) = Some e -> (i <= e)%nat)
-      /\ (forall f, In f (refs (rx z) v) -> In f (f_present (rx z))).
+      /\ r_got (r_readers z r) = refs (rx z) (version_at (hist z) i)
+      /\ (forall f, In f (r_got (r_readers z r)) -> In f (f_present (rx z)))
+      /\ (forall (row : Type) (content : fid -> list row),
+            result_rows content (r_readers z r) = snapshot_rows content (rx z) (version_at (hist z) i)).
 Proof.
-  intros Snd A z r v Hv.
+  intros Snd A z r e He.
   assert (I : RInv c z) by (apply rrun_inv; [exact Snd | apply rinit_inv; apply finit_inv; exact A]).
-  destruct (RI_r c z I r) as [_ [B [_ [D E]]]]. destruct (B v Hv) as [i [st [B1 [B2 [B3 [B4 B5]]]]]].
+  destruct (RI_r c z I r) as [_ [B [C [D E]]]]. destruct (E e He) as [i [E1 [E2 E3]]].
+  destruct (r_vid (r_readers z r)) as [v|] eqn:V; [|destruct (C eq_refl) as [C1 _]; congruence].
+  destruct (B v eq_refl) as [i' [st [B1 [B2 [B3 [B4 [B5 [B6 B7]]]]]]]].
+  rewrite B1 in E1. inversion E1; subst i'. rewrite E3, app_nil_r in B6.
   exists i, st. repeat split; auto; try lia.
-  - intros e He. destruct (E e He) as [i' [E1 E2]]. rewrite B1 in E1. inversion E1; subst. lia.
-  - intros f Hf. apply (finv_present c _ (RI_f c z I) v B5 f Hf).
+  - rewrite <- B4. exact B6.
+  - intros f Hf. apply (finv_present c _ (RI_f c z I) v B5). rewrite <- B6. exact Hf.
+  - intros row content. unfold result_rows, snapshot_rows. rewrite <- B4, B6. reflexivity.
 Qed.
 
-Theorem hist_monotone c z evs : exists t, hist (rrun c z evs) = hist z ++ t.
+(* ... and while it is still running: no read has failed, and what it has read so far is a prefix of the file list of
+   the one version it resolved *)
+Theorem reader_in_progress c m0 kind mr r0 next evs :
+  sound c -> (forall f, In f r0 -> (f < next)%nat) ->
+  let z := rrun c 1 (rinit (finit m0 kind mr r0 next)) evs in
+  forall r, r_ok (r_readers z r) = true
+    /\ forall v, r_vid (r_readers z r) = Some v ->
+         exists i, r_idx (r_readers z r) = Some i /\ v = version_at (hist z) i
+                   /\ r_got (r_readers z r) ++ r_todo (r_readers z r) = refs (rx z) v
+                   /\ (forall f, In f (refs (rx z) v) -> In f (f_present (rx z))).
+Proof.
+  intros Snd A z r.
+  assert (I : RInv c z) by (apply rrun_inv; [exact Snd | apply rinit_inv; apply finit_inv; exact A]).
+  destruct (RI_r c z I r) as [_ [B [_ [D _]]]]. split; [exact D|].
+  intros v Hv. destruct (B v Hv) as [i [st [B1 [_ [_ [B4 [B5 [B6 _]]]]]]]]. exists i. repeat split; auto.
+  intros f Hf. apply (finv_present c _ (RI_f c z I) v B5 f Hf).
+Qed.
+
+(* Successive reads never move backwards in commit order: a call that had returned (after e1 flips) when another one
+   started (after s2 flips, e1 <= s2 -- in particular two successive calls through one handle) resolved the pointer no
+   later in the pointer history than the second one. *)
+Theorem reads_monotone c m0 kind mr r0 next evs :
+  sound c -> (forall f, In f r0 -> (f < next)%nat) ->
+  let z := rrun c 1 (rinit (finit m0 kind mr r0 next)) evs in
+  forall r1 r2 e1 s2 i2,
+    r_end (r_readers z r1) = Some e1 -> r_start (r_readers z r2) = Some s2 -> (e1 <= s2)%nat ->
+    r_idx (r_readers z r2) = Some i2 ->
+    exists i1, r_idx (r_readers z r1) = Some i1 /\ (i1 <= i2)%nat
+      /\ firstn i1 (hist z) = firstn i1 (firstn i2 (hist z)).      (* the flips r1 had seen are a prefix of those r2 saw *)
+Proof.
+  intros Snd A z r1 r2 e1 s2 i2 H1 H2 L H3.
+  assert (I : RInv c z) by (apply rrun_inv; [exact Snd | apply rinit_inv; apply finit_inv; exact A]).
+  destruct (RI_r c z I r1) as [_ [_ [_ [_ E]]]]. destruct (E e1 H1) as [i1 [E1 [E2 _]]].
+  destruct (RI_r c z I r2) as [_ [B [C _]]].
+  destruct (r_vid (r_readers z r2)) as [v|] eqn:V; [|destruct (C eq_refl) as [C1 _]; congruence].
+  destruct (B v eq_refl) as [i' [st [B1 [B2 [B3 _]]]]]. rewrite H3 in B1. inversion B1; subst i'. rewrite H2 in B2. inversion B2; subst st.
+  exists i1. split; [exact E1|]. split; [lia|].
+  rewrite firstn_firstn. replace (Nat.min i1 i2) with i1 by lia. reflexivity.
+Qed.
+
+Theorem hist_monotone c b z evs : exists t, hist (rrun c b z evs) = hist z ++ t.
 Proof.
   revert z. induction evs as [|e l IH]; intro z; [exists []; rewrite app_nil_r; reflexivity|].
-  change (exists t, hist (rrun c (rstep_skip c z e) l) = hist z ++ t).
-  destruct (IH (rstep_skip c z e)) as [t Ht]. rewrite Ht. unfold rstep_skip.
-  destruct (rstep c z e) as [z'|] eqn:St; [|eexists; reflexivity].
-  destruct e as [fe|r|r|r f|r]; simpl in St.
+  change (exists t, hist (rrun c b (rstep_skip c b z e) l) = hist z ++ t).
+  destruct (IH (rstep_skip c b z e)) as [t Ht]. rewrite Ht. unfold rstep_skip.
+  destruct (rstep c b z e) as [z'|] eqn:St; [|eexists; reflexivity].
+  destruct e as [fe|r|r|r|r]; simpl in St.
   - destruct (fstep c (rx z) fe) as [x'|] eqn:Sf; [|discriminate]. inversion St; subst z'.
     destruct (hist_grows c _ _ _ Sf) as [t2 Ht2]. unfold hist. simpl. rewrite Ht2, <- app_assoc. eexists. reflexivity.
   - destruct (r_start _); [discriminate|]. inversion St; subst z'. eexists; reflexivity.
-  - destruct (r_start _); [|discriminate]. destruct (r_vid _); [discriminate|]. inversion St; subst z'. eexists; reflexivity.
-  - destruct (r_vid _); [|discriminate]. destruct (r_end _); [discriminate|]. destruct (existsb _ _); [|discriminate].
+  - destruct (r_start _); [|discriminate]. destruct (r_end _); [discriminate|]. destruct (Nat.ltb _ _); [|discriminate].
     inversion St; subst z'. eexists; reflexivity.
-  - destruct (r_vid _); [|discriminate]. destruct (r_end _); [discriminate|]. inversion St; subst z'. eexists; reflexivity.
+  - destruct (r_vid _); [|discriminate]. destruct (r_end _); [discriminate|]. destruct (r_todo _); [discriminate|].
+    inversion St; subst z'. eexists; reflexivity.
+  - destruct (r_vid _); [|discriminate]. destruct (r_end _); [discriminate|]. destruct (r_todo _); [|discriminate].
+    inversion St; subst z'. eexists; reflexivity.
 Qed.
+
+(* ------------------------------------------------------------------------------------------------------------
+   A multi-operation transaction is ONE operation identifier with ONE pointer flip (that the code does this is
+   Proofs/ReadResProofs.v txn_one_commit_per_attempt + GenCommit's single flip per MetadataManager.commit).  In the
+   model: after the first i flips the visible operations are exactly the initial ones followed by the transactions of
+   those i flips, each of them once -- a transaction is in no version before its own flip and in every version from it
+   on (until a later operation removes what it added, which is that operation's own flip). *)
+Lemma chain_ok_firstn F p h i : chain_ok F p h -> chain_ok F p (firstn i h).
+Proof.
+  revert p i. induction h as [|[v a] t IH]; intros p i C; destruct i; simpl in *; auto.
+  destruct C as [C1 [C2 [C3 C4]]]. repeat split; auto.
+Qed.
+
+Theorem txn_visible_whole c m0 kind mr r0 next evs :
+  sound c -> (forall f, In f r0 -> (f < next)%nat) ->
+  let w := fw (frun c (finit m0 kind mr r0 next) evs) in
+  NoDup (map snd (w_hist w))
+  /\ forall i, m_ops (nthf (w_files w) (version_at (w_hist w) i)) = m_ops (nthf (w_files w) 0%nat) ++ map snd (firstn i (w_hist w)).
+Proof.
+  intros Snd A w.
+  pose proof (faults_keep_inv c m0 kind mr r0 next evs Snd A) as I. split; [apply I|].
+  intro i. unfold version_at. change (last (map fst (firstn i (w_hist w))) 0%nat) with (lastv 0%nat (firstn i (w_hist w))).
+  apply chain_ops. apply chain_ok_firstn. apply I.
+Qed.
+
+(* ------------------------------------------------------------------------------------------------------------
+   The single resolution is what the property rests on.  The same statement for read calls that may resolve the
+   pointer TWICE (what Table._get_all_data_files did on a table without current snapshot, and the filtered scans did
+   for the schema) is false: the call below reads file 0 of version 0, resolves again after a commit and reads the
+   files of version 1 -- what it returns is the file list of no version. *)
+Definition snapshot_read_full (budget : nat) : Prop :=
+  forall c m0 kind mr r0 next evs,
+  sound c -> (forall f, In f r0 -> (f < next)%nat) ->
+  let z := rrun c budget (rinit (finit m0 kind mr r0 next)) evs in
+  forall r e, r_end (r_readers z r) = Some e ->
+    exists i, r_got (r_readers z r) = refs (rx z) (version_at (hist z) i).
+
+Definition two_res_cfg := {| cas := false; lockkind := Excl |}.
+Definition two_res_events : list revent :=
+  ([RStart 0; RPtr 0; RFile 0; RSys (FWrite 0)] ++ map (fun e => RSys (FProto e)) (commit_script 0 0 100)
+   ++ [RPtr 0; RFile 0; RFile 0; REnd 0])%nat.
+
+Theorem snapshot_read_refuted_for_two_resolutions : ~ snapshot_read_full 2.
+Proof.
+  intro H.
+  specialize (H two_res_cfg {| m_ops := []; m_cur := 1; m_lu := 50 |} (fun _ => KFresh) (fun _ => 50%nat) [0%nat] 1%nat two_res_events).
+  assert (S : sound two_res_cfg) by (right; reflexivity).
+  assert (A : forall f, In f [0%nat] -> (f < 1)%nat) by (intros f [<-|[]]; lia).
+  specialize (H S A 0%nat 1%nat eq_refl). destruct H as [i H].
+  destruct i as [|[|i]]; vm_compute in H; discriminate.
+Qed.
+
+Theorem snapshot_read_holds_for_one_resolution : snapshot_read_full 1.
+Proof.
+  intros c m0 kind mr r0 next evs Snd A z r e He.
+  destruct (reader_snapshot c m0 kind mr r0 next evs Snd A r e He) as [i [st [_ [_ [_ [_ [_ [G _]]]]]]]].
+  exists i. exact G.
+Qed.
+
+Theorem snapshot_read_needs_single_resolution : ~ snapshot_read_full 2 /\ snapshot_read_full 1.
+Proof. exact (conj snapshot_read_refuted_for_two_resolutions snapshot_read_holds_for_one_resolution). Qed.
+
+(* the code facts (regenerated counts) together with the model statement *)
+Theorem txn_atomic :
+  txn_commits_per_attempt = (1, 1)%nat /\ snd delete_snapshot_commits = 1%nat
+  /\ forall c m0 kind mr r0 next evs,
+       sound c -> (forall f, In f r0 -> (f < next)%nat) ->
+       let w := fw (frun c (finit m0 kind mr r0 next) evs) in
+       NoDup (map snd (w_hist w))
+       /\ forall i, m_ops (nthf (w_files w) (version_at (w_hist w) i))
+                    = m_ops (nthf (w_files w) 0%nat) ++ map snd (firstn i (w_hist w)).
+Proof. exact (conj txn_one_commit_per_attempt (conj delete_snapshot_at_most_one_commit txn_visible_whole)). Qed.
